@@ -120,6 +120,15 @@ def ops():
         op(f"add_reaction({nm})")(lambda m, ctx, i, nm=nm: m.add_reaction(nm, R.mass_action_1s, args=["y", "k2"], stoichiometry={"y": -1, "x": 1}))
     op("update_reaction(v1 stoich)")(lambda m, ctx, i: m.update_reaction("v1", stoichiometry={"x": -2, "z": 1}))
     op("update_reaction(v2 stoich state dependent)")(lambda m, ctx, i: m.update_reaction("v2", stoichiometry={"y": -1, "z": _derived(R.mul, ["x", "k2"])}))
+    # a readout whose function takes two arguments, declared with one: every query of a fresh model refuses it
+    op("add_readout(rbad wrong arity)")(lambda m, ctx, i: m.add_readout("rbad", R.mul, args=["x"]))
+    # the stoichiometry given as a list of pairs (a caller error): the rejected call must leave no name behind
+    op("add_reaction(v4 stoichiometry as list)")(lambda m, ctx, i: m.add_reaction("v4", R.mass_action_1s, args=["x", "k1"], stoichiometry=[("x", -1.0)]))
+    # the surrogate object that is already part of the model, added a second time under another name and wiring
+    op("add_surrogate(s3 same object as sur)")(lambda m, ctx, i: m.add_surrogate(
+        "s3", m.get_raw_surrogates(as_copy=False)["sur"], args=["y", "k2"], outputs=["tf3", "to3"], stoichiometries={"tf3": {"y": -1}}))
+    # z leaves the dynamics and comes back with the stoichiometries it had (a reaction and a surrogate flux)
+    op("make_parameter_dynamic(z back, stoich v2+sf)")(lambda m, ctx, i: m.make_parameter_dynamic("z", stoichiometries={"v2": 0.5, "sf": -1}))
     op("update_reaction(v1 args)")(lambda m, ctx, i: m.update_reaction("v1", args=["y", "k2"]))
     op("update_reaction(v2 fn)")(lambda m, ctx, i: m.update_reaction("v2", fn=R.mass_action_2s, args=["x", "y", "k1"]))
     op("update_reaction(nope)")(lambda m, ctx, i: m.update_reaction("nope", args=["y", "k2"]))
@@ -150,9 +159,12 @@ def ops():
 
 
 # operation instances that expose an open finding on their own: probed alone, kept out of composite histories
-TAINTED = {
-    # multi-name edits are loops over single edits: rejected half-way they are partial (minimal scenario: add_parameters(p1,k1))
-    "add_parameters(p1,k1)", "add_parameters(p1,p2)", "remove_parameters(ku,n)", "scale_parameters(k1,k2)", "add_variables(w1,w2)", "update_variables(x,y)",
+TAINTED = set()  # every operation instance takes part in composite histories (the partial plural edits were repaired in 6b35c85)
+
+
+# edits that must be accepted when the history before them makes them legitimate
+MUST_ACCEPT = {
+    "make_parameter_dynamic(z back, stoich v2+sf)": lambda before: [l for l, _ in before] == ["make_variable_static(z)"],
 }
 
 
@@ -301,6 +313,8 @@ class History(Scenario):
                 raised = None
             except Exception as e:  # noqa: BLE001  any exception is a rejection; the property does not fix its type
                 raised = e
+            if raised is not None and label in MUST_ACCEPT and MUST_ACCEPT[label](self.opseq[:i]):
+                ctx.true(f"step {i} {label}: a legitimate edit is accepted", False, info=f"{type(raised).__name__}: {raised}"[:150])
             if raised is not None:
                 ctx.true(f"step {i} {label}: a rejected edit changes nothing", same_snapshot(before, snapshot(m)), info=f"{type(raised).__name__}: {raised}"[:150])
             ok, exp = ids_consistent(m)
